@@ -47,6 +47,9 @@ var lenInvariants = []lenInvariant{
 	{"openflow13.PacketOut", "$.ActionsLen", func() *Term {
 		return Sum("$.Actions", msgLen("$.Actions[*]"))
 	}, "total size of the action list"},
+	{"common.HelloElemVersionBitmap", "$.HelloElemHeader.Length", func() *Term {
+		return Const(4).Add(LenOf("$.Bitmaps").Scale(4))
+	}, "element header plus the 32-bit bitmaps"},
 	{"openflow13.InstrActions", "$.InstrHeader.Length", func() *Term {
 		return Const(8).Add(Sum("$.Actions", msgLen("$.Actions[*]")))
 	}, "instruction header plus the action list"},
@@ -86,6 +89,7 @@ func termsEqual(a, b *Term) bool {
 func runC02(w *World, r *Report) {
 	r.Rule("code", "constructors leave the specified type / subtype / experimenter codes", 35)
 	r.Rule("declen", "stored length fields equal the size of what the element contains, for every constructor and builder", 14)
+	r.Rule("wirelen", "the declared length each encoder puts on the wire equals the bytes the element occupies at the moment of encoding", 34)
 	r.Rule("size", "size function ≡ bytes produced ≡ extent written, for every nested element kind", 40)
 	r.Rule("align8", "action, instruction, match and bucket sizes are multiples of 8", 30)
 	codes, err := loadCodes()
@@ -284,6 +288,29 @@ func runC02(w *World, r *Report) {
 		} else {
 			r.Fail(v.Verdict, "size", n, "", pos, v.Diag)
 		}
+	}
+	// ---------------------------------------------------------------- wirelen
+	{
+		var ks []*Kind
+		seen := map[string]bool{}
+		for _, set := range [][]*Kind{actionKinds, instrKinds} {
+			for _, k := range set {
+				if !seen[k.Name] {
+					seen[k.Name] = true
+					ks = append(ks, k)
+				}
+			}
+		}
+		for _, n := range []string{"openflow13.Match", "openflow13.Bucket", "openflow13.BundlePropertyExperimenter", "openflow13.PacketOut", "common.HelloElemVersionBitmap"} {
+			if k := w.Kinds[n]; k != nil && !seen[n] {
+				seen[n] = true
+				ks = append(ks, k)
+			} else if k == nil {
+				r.Fail(VViolation, "wirelen", n, "", "-", "kind with a declared length no longer exists")
+			}
+		}
+		sort.Slice(ks, func(i, j int) bool { return ks[i].Name < ks[j].Name })
+		wirelenRule(w, r, ks)
 	}
 	alignSet := map[string]*Kind{}
 	for _, set := range [][]*Kind{actionKinds, instrKinds} {
@@ -615,4 +642,272 @@ func declenRule(w *World, r *Report) {
 		}
 	}
 
+}
+
+// ---------------------------------------------------------------- wirelen
+
+// lengthCarrier: how an element kind's declared length reaches the wire.
+// Header children: the path of the length field inside the embedded header kind.
+var headerLenPath = map[string]string{
+	"openflow13.ActionHeader":   "Length",
+	"openflow13.InstrHeader":    "Length",
+	"openflow13.NXActionHeader": "ActionHeader.Length",
+	"common.HelloElemHeader":    "Length",
+}
+
+// directLen: kinds whose encoder writes the declared length itself: offset of the field and what it must equal
+// (nil: the kind's whole size).
+var directLen = map[string]struct {
+	Off  int64
+	Want func() *Term
+	What string
+}{
+	"openflow13.Match": {2, func() *Term {
+		return Const(4).Add(Sum("$.Fields", LenCall("$.Fields[*]", "openflow13.MatchField")))
+	}, "ofp_match.length: header plus fields, excluding padding"},
+	"openflow13.Bucket":                     {0, nil, "ofp_bucket.len: the whole bucket"},
+	"openflow13.BundlePropertyExperimenter": {2, nil, "ofp_bundle_prop_experimenter.length: the whole property"},
+	"openflow13.PacketOut": {16, func() *Term {
+		return Sum("$.Actions", msgLen("$.Actions[*]"))
+	}, "ofp_packet_out.actions_len: total size of the action list"},
+}
+
+// wirelenRule: the declared length an encoder puts on the wire equals the number of bytes the
+// element occupies, at the moment of encoding (not merely after the last builder call): the value is
+// the abstract value of the length field when the header child is encoded (or the value written
+// directly), compared with the size term under the constructor facts and the declen invariants.
+func wirelenRule(w *World, r *Report, kinds []*Kind) {
+	for _, k := range kinds {
+		if k.Marshal == nil || k.Len == nil {
+			continue
+		}
+		pos := "-"
+		if fi := w.FuncOf(k.Marshal); fi != nil {
+			pos = w.Pos(fi.Decl.Pos())
+		}
+		if !k.OwnMarshal {
+			r.OK("wirelen", k.Name, "", pos, "codec inherited from the embedded header (checked there; the size shortfall is the align8 obligation of this kind)", false)
+			continue
+		}
+		es, ls := w.EncSummary(k), w.LenSummary(k)
+		if es == nil || ls == nil || ls.Term == nil {
+			r.Fail(VUndecided, "wirelen", k.Name, "", pos, "no summary of the encoder or the size function")
+			continue
+		}
+		var D *Term
+		var at string
+		how := ""
+		if dl, ok := directLen[k.Name]; ok {
+			for _, rec := range es.Recs {
+				if rec.Kind == "int" && rec.Off.IsConst() && rec.Off.C == dl.Off && rec.Val != nil {
+					D, at, how = rec.Val, w.Pos(rec.Pos), "written at offset "+fmt.Sprint(dl.Off)
+				}
+			}
+		} else if lp, ok := headerLenPath[k.Name]; ok {
+			// the header kinds themselves: the field is written as it stands
+			_ = lp
+			continue
+		} else {
+			s := structOf(k.Named)
+			for _, rec := range es.Recs {
+				if rec.Kind != "child" || !rec.Off.IsZero() || !strings.HasPrefix(rec.Src, "enc($.") {
+					continue
+				}
+				fname := strings.TrimSuffix(strings.TrimPrefix(rec.Src, "enc($."), ")")
+				if s == nil || strings.Contains(fname, ".") {
+					continue
+				}
+				for i := 0; i < s.NumFields(); i++ {
+					if s.Field(i).Name() != fname {
+						continue
+					}
+					ck := w.KindOfType(s.Field(i).Type())
+					if ck == nil {
+						continue
+					}
+					lp, ok := headerLenPath[ck.Name]
+					if !ok {
+						continue
+					}
+					at = w.Pos(rec.Pos)
+					if v := rec.Snap[lp]; v != nil {
+						D, how = v, "value of $."+fname+"."+lp+" when the header is encoded"
+					} else {
+						D, how = ValOf("$."+fname+"."+lp), "$."+fname+"."+lp+" as the constructors and builders leave it"
+					}
+				}
+			}
+		}
+		if D == nil {
+			r.Fail(VViolation, "wirelen", k.Name, "", pos, "the encoder does not put a declared length on the wire where the element family has one")
+			continue
+		}
+		used := map[string]bool{}
+		kf := w.Facts(k)
+		norm := func(t *Term) *Term {
+			t = w.ExpandLens(t, 0)
+			t = stripWraps(t, used)
+			for _, inv := range lenInvariants {
+				if inv.Kind != k.Name {
+					continue
+				}
+				inv := inv
+				t = t.Map(func(a *Atom) *Term {
+					if a.Kind == "val" && a.Path == inv.L {
+						used["invariant "+inv.L+" = "+inv.What+" (declen rules)"] = true
+						return inv.F()
+					}
+					return nil
+				})
+			}
+			t = applyFacts(t, kf, used)
+			t = w.applyPremises(k, t, used)
+			t = w.ExpandLens(t, 0)
+			return t
+		}
+		want, what := ls.Term, "the size function's result"
+		if dl, ok := directLen[k.Name]; ok && dl.Want != nil {
+			want, what = dl.Want(), dl.What
+		} else if ok {
+			what = dl.What
+		}
+		dn, wn := norm(D), norm(want)
+		// an invariant established when a child was added says nothing once the child can grow afterwards
+		for _, inv := range lenInvariants {
+			if inv.Kind != k.Name || !used["invariant "+inv.L+" = "+inv.What+" (declen rules)"] {
+				continue
+			}
+			if g := growableChildren(w, k, inv.F()); len(g) > 0 {
+				r.Fail(VViolation, "wirelen", k.Name, "stable", at, fmt.Sprintf("the encoder writes %s as the builders left it (%s), but %s can change size after it was added (%s): the stored length goes stale and the element then declares fewer bytes than it occupies", inv.L, inv.What, g[0][0], g[0][1]))
+			} else {
+				r.OK("wirelen", k.Name, "stable", at, "no kind that can sit inside the element has a builder that changes its size after insertion: the stored length cannot go stale", true)
+			}
+		}
+		var usedL []string
+		for u := range used {
+			usedL = append(usedL, u)
+		}
+		sort.Strings(usedL)
+		under := ""
+		if len(usedL) > 0 {
+			under = " under {" + strings.Join(usedL, "; ") + "}"
+		}
+		if termsEqual(dn, wn) {
+			r.OK("wirelen", k.Name, "", at, fmt.Sprintf("declared length (%s) = %v = %s%s", how, D, what, under), dn.Symbolic())
+		} else {
+			r.Fail(VViolation, "wirelen", k.Name, "", at, fmt.Sprintf("declared length (%s) is %v, but the element occupies %v (%s): a receiver walking by declared lengths loses alignment with the elements", how, pushCoef(dn), pushCoef(wn), what))
+		}
+	}
+}
+
+// sizeChangingBuilders lists the builder methods of kind c that store to state its size depends on.
+func sizeChangingBuilders(w *World, c *Kind) []string {
+	ls := w.LenSummary(c)
+	if ls == nil || ls.Term == nil {
+		return nil
+	}
+	paths := map[string]bool{}
+	w.ExpandLens(ls.Term, 0).HasAtom(func(a *Atom) bool {
+		p := a.Path
+		if i := strings.Index(p, "[*]"); i >= 0 {
+			p = p[:i]
+		}
+		if p != "" {
+			paths[p] = true
+		}
+		if a.Kind == "ite" {
+			c := strings.TrimSuffix(a.Cond, "==nil")
+			paths[c] = true
+		}
+		return false
+	})
+	var out []string
+	for _, m := range w.methodsOf(c) {
+		if isCodecMethod(m.Decl.Name.Name) {
+			continue
+		}
+		fs := w.Interpret(m, "builder")
+		for _, s := range fs.Stores {
+			if paths[strings.TrimSuffix(s.Path, "[]")] {
+				out = append(out, m.Key)
+				break
+			}
+		}
+	}
+	return out
+}
+
+// growableChildren: kinds that can be an element counted by the invariant's size term F and that
+// have a size-changing builder. Returns [kind, builder] pairs.
+func growableChildren(w *World, k *Kind, F *Term) [][2]string {
+	var out [][2]string
+	seen := map[string]bool{}
+	var cands []*Kind
+	addImpl := func(iface string) {
+		for _, c := range w.KindsL {
+			if seen[c.Name] || c.Len == nil {
+				continue
+			}
+			switch iface {
+			case "openflow13.MatchField":
+				// payloads of match fields: the kinds the field constructors and DecodeMatchField produce
+				if strings.HasPrefix(c.Name, "openflow13.") && strings.HasSuffix(c.Name, "Field") && c.Name != "openflow13.MatchField" {
+					seen[c.Name] = true
+					cands = append(cands, c)
+				}
+			default:
+				seen[c.Name] = true
+				cands = append(cands, c)
+			}
+		}
+	}
+	F.HasAtom(func(a *Atom) bool {
+		if a.Kind != "sum" {
+			return false
+		}
+		// the declared element type of the list decides what can sit in it
+		var et types.Type
+		if st := structOf(k.Named); st != nil {
+			name := strings.TrimPrefix(a.Path, "$.")
+			for i := 0; i < st.NumFields(); i++ {
+				if st.Field(i).Name() == name {
+					if sl, ok := st.Field(i).Type().Underlying().(*types.Slice); ok {
+						et = sl.Elem()
+					}
+				}
+			}
+		}
+		if et == nil {
+			addImpl("")
+			return false
+		}
+		if it, ok := et.Underlying().(*types.Interface); ok {
+			for _, c := range w.Implementations(it) {
+				if !seen[c.Name] {
+					seen[c.Name] = true
+					cands = append(cands, c)
+				}
+			}
+			return false
+		}
+		if ck := w.KindOfType(et); ck != nil && ck.Name == "openflow13.MatchField" {
+			addImpl("openflow13.MatchField")
+		} else if ck != nil && !seen[ck.Name] {
+			seen[ck.Name] = true
+			cands = append(cands, ck)
+		} else if ck == nil {
+			addImpl("")
+		}
+		return false
+	})
+	for _, c := range cands {
+		if c.Name == k.Name {
+			continue
+		}
+		if b := sizeChangingBuilders(w, c); len(b) > 0 {
+			out = append(out, [2]string{c.Name, b[0]})
+		}
+	}
+	sort.Slice(out, func(i, j int) bool { return out[i][0] < out[j][0] })
+	return out
 }
